@@ -40,6 +40,17 @@ func pointSet() []ipt {
 	return p
 }
 
+// sliverSet is a second general-position point set made of flat triangles and
+// long segments that cross at shallow angles (1..5 degrees) close to another
+// segment's start: the configurations an epsilon-based parallel test gets
+// wrong. It is used at three exact (power-of-two) scales.
+func sliverSet() []ipt {
+	return []ipt{{0, 0}, {10, 16}, {200, 0}, {4, 4}, {180, -1}, {100, 3}, {60, -3}, {150, 9}}
+}
+
+var sliverDivs = []float64{1, 256, 65536}
+var sliverTols = []float64{8, 20, 60, 1e9}
+
 func cross(o, a, b ipt) int64 { return (a.X-o.X)*(b.Y-o.Y) - (a.Y-o.Y)*(b.X-o.X) }
 
 func sgn(a int64) int {
@@ -196,6 +207,7 @@ type Case struct {
 	Seq  []int
 	Tol  float64
 	Idx  int64
+	Div  float64 `json:",omitempty"` // line-sliver: exact power-of-two divisor
 }
 
 func rings() [][][]ipt {
@@ -244,23 +256,54 @@ func enumerate(visit func(idx int64, mk func() Case)) {
 	// the same point set scaled by 1e-3 (coordinates 0..0.3, tolerances scaled):
 	// intersection tests with an absolute or mixed epsilon behave differently at
 	// this scale
-	for l := 3; l <= 5; l++ {
-		total := 1
-		for i := 0; i < l; i++ {
-			total *= len(ps)
+	// and by 1e-5 (coordinates 0..3e-3): products of segment lengths fall
+	// below any fixed relative-times-length threshold
+	for _, fam := range []struct {
+		kind string
+		tols []float64
+	}{{"line-small", []float64{0.04, 0.1, 0.3}}, {"line-tiny", []float64{4e-4, 1e-3, 3e-3}}} {
+		for l := 3; l <= 5; l++ {
+			total := 1
+			for i := 0; i < l; i++ {
+				total *= len(ps)
+			}
+			for s := 0; s < total; s++ {
+				for _, tol := range fam.tols {
+					l, s, tol, kind := l, s, tol, fam.kind
+					emit(func() Case {
+						seq := make([]int, l)
+						t := s
+						for i := range seq {
+							seq[i] = t % len(ps)
+							t /= len(ps)
+						}
+						return Case{Kind: kind, Seq: seq, Tol: tol}
+					})
+				}
+			}
 		}
-		for s := 0; s < total; s++ {
-			for _, tol := range []float64{0.04, 0.1, 0.3} {
-				l, s, tol := l, s, tol
-				emit(func() Case {
-					seq := make([]int, l)
-					t := s
-					for i := range seq {
-						seq[i] = t % len(ps)
-						t /= len(ps)
-					}
-					return Case{Kind: "line-small", Seq: seq, Tol: tol}
-				})
+	}
+	// sliver family: every sequence of length 3..6 over the 8 sliver points
+	sl := len(sliverSet())
+	for _, div := range sliverDivs {
+		for l := 3; l <= 6; l++ {
+			total := 1
+			for i := 0; i < l; i++ {
+				total *= sl
+			}
+			for s := 0; s < total; s++ {
+				for _, tol := range sliverTols {
+					l, s, tol, div := l, s, tol, div
+					emit(func() Case {
+						seq := make([]int, l)
+						t := s
+						for i := range seq {
+							seq[i] = t % sl
+							t /= sl
+						}
+						return Case{Kind: "line-sliver", Seq: seq, Tol: tol / div, Div: div}
+					})
+				}
 			}
 		}
 	}
@@ -351,8 +394,11 @@ func lenClass(n int) string {
 func execute(c Case) (string, string, bool) {
 	ps := pointSet()
 	switch c.Kind {
-	case "line", "grid-line", "line-small":
+	case "line", "grid-line", "line-small", "line-tiny", "line-sliver":
 		li := make([]ipt, len(c.Seq))
+		if c.Kind == "line-sliver" {
+			ps = sliverSet()
+		}
 		for i, k := range c.Seq {
 			if c.Kind != "grid-line" {
 				li[i] = ps[k]
@@ -361,10 +407,16 @@ func execute(c Case) (string, string, bool) {
 			}
 		}
 		in := geom.LineString(toPts(li))
+		sc := 1.0
 		if c.Kind == "line-small" {
-			for i := range in {
-				in[i].X, in[i].Y = in[i].X/1000, in[i].Y/1000
-			}
+			sc = 1000
+		} else if c.Kind == "line-tiny" {
+			sc = 1e5
+		} else if c.Kind == "line-sliver" {
+			sc = c.Div
+		}
+		for i := range in {
+			in[i].X, in[i].Y = in[i].X/sc, in[i].Y/sc
 		}
 		cp := append(geom.LineString{}, in...)
 		var res geom.Geom
@@ -381,10 +433,6 @@ func execute(c Case) (string, string, bool) {
 			}
 		}
 		wantSimple := c.Kind != "grid-line" && len(li) >= 2 && simple(li)
-		sc := 1.0
-		if c.Kind == "line-small" {
-			sc = 1000
-		}
 		sym, det := judgeCurve(in, out, c.Tol, wantSimple, li, sc)
 		if sym != "" {
 			return "LineString|" + sym + "|" + lenClass(len(li)), fmt.Sprintf("input %v tol %g output %s", in, c.Tol, det), len(out) < len(in)
@@ -521,18 +569,19 @@ func main() {
 	}
 	os.Setenv("VERIF_TIER", tier)
 	// general position is a precondition of the simplicity clause
-	ps := pointSet()
-	for i := range ps {
-		for j := i + 1; j < len(ps); j++ {
-			for k := j + 1; k < len(ps); k++ {
-				if cross(ps[i], ps[j], ps[k]) == 0 {
-					report.Harness("point set is not in general position: %v %v %v", ps[i], ps[j], ps[k])
+	for _, ps := range [][]ipt{pointSet(), sliverSet()} {
+		for i := range ps {
+			for j := i + 1; j < len(ps); j++ {
+				for k := j + 1; k < len(ps); k++ {
+					if cross(ps[i], ps[j], ps[k]) == 0 {
+						report.Harness("point set is not in general position: %v %v %v", ps[i], ps[j], ps[k])
+					}
 				}
 			}
 		}
 	}
 	r := report.New("C13", tier, "model_checking")
-	r.Rule = "E1 (isolated workers, 2 GiB address-space limit, 60 s silence horizon): every vertex sequence of length 0..6 (thorough: over 16 points) over a 12-point set with no three points collinear (verified exactly) x tolerances {0,40,100,150,300,1e9}; every sequence of length 3..5 over the same point set scaled by 1e-3 x 3 scaled tolerances; every sequence of length <= 4 over the plain 4x4 integer grid x 4 tolerances (termination / subsequence / tolerance clauses only); 7 polygons (holes, unclosed, degenerate rings) x 6 tolerances and all ordered pairs as MultiPolygon; two-member MultiLineStrings. Oracle: terminates; output is an order-preserving subsequence keeping first and last vertex; an embedding exists in which every dropped vertex is within tol of its replacing segment; exactly simple input => exactly simple output; input unchanged; multi members equal the member simplified alone. Non-trivial = calls that drop at least one vertex."
+	r.Rule = "E1 (isolated workers, 2 GiB address-space limit, 60 s silence horizon): every vertex sequence of length 0..6 (thorough: over 16 points) over a 12-point set with no three points collinear (verified exactly) x tolerances {0,40,100,150,300,1e9}; every sequence of length 3..5 over the same point set scaled by 1e-3 and by 1e-5 x 3 scaled tolerances each; every sequence of length 3..6 over an 8-point sliver set (flat triangles, 1..5 degree crossings; no three collinear) at the exact scales 1, 2^-8, 2^-16 x 4 tolerances; every sequence of length <= 4 over the plain 4x4 integer grid x 4 tolerances (termination / subsequence / tolerance clauses only); 7 polygons (holes, unclosed, degenerate rings) x 6 tolerances and all ordered pairs as MultiPolygon; two-member MultiLineStrings. Oracle: terminates; output is an order-preserving subsequence keeping first and last vertex; an embedding exists in which every dropped vertex is within tol of its replacing segment; exactly simple input => exactly simple output; input unchanged; multi members equal the member simplified alone. Non-trivial = calls that drop at least one vertex."
 	sum := fault.Sweep(r, 16, 2<<20, 60*time.Second, func(idx int64) (string, interface{}) {
 		var sig string
 		var det interface{}
